@@ -27,6 +27,7 @@ mod c04;
 mod gridalg;
 mod flexalg;
 mod blocktree;
+mod taffytree;
 
 fn main() {
     let args: Vec<String> = std::env::args().collect();
@@ -61,6 +62,7 @@ fn main() {
         "gridalg" => gridalg::main(rest),
         "flexalg" => flexalg::main(rest),
         "blocktree" => blocktree::main(rest),
+        "taffytree" => taffytree::main(rest),
         other => {
             eprintln!("unknown property {other}");
             std::process::exit(2);
